@@ -1,6 +1,6 @@
 SPECIFICATION BSpec
 CONSTANTS
-  Kinds = {"ok1", "ok2", "ok_other_model", "unknown_origin", "unknown_dest", "dest_above_cruise", "overweight", "no_weather_file", "outside_weather"}
+  Kinds = {"ok1", "ok2", "ok_other_model", "ok_given_mass", "unknown_origin", "unknown_dest", "dest_above_cruise", "overweight", "no_weather_file", "outside_weather"}
   Opts = {"plain", "iter", "iter_tight", "weather"}
   MaxFlights = 4
 INVARIANT NoContextBetweenFlights
